@@ -182,6 +182,42 @@ func (c *unixgramConn) LocalAddr() net.Addr {
 	return &net.UnixAddr{Name: "/verif.sock", Net: "unixgram"}
 }
 
+// timedPC: a datagram socket on which a reply with a foreign ID arrives every `gap`; reads honour the read deadline
+type timedPC struct {
+	gap      time.Duration
+	n        int
+	deadline time.Time
+	served   int
+}
+
+func (c *timedPC) Read(p []byte) (int, error) {
+	wake := time.Now().Add(c.gap)
+	if !c.deadline.IsZero() && c.deadline.Before(wake) {
+		if d := time.Until(c.deadline); d > 0 {
+			time.Sleep(d)
+		}
+		return 0, timeoutErr{}
+	}
+	time.Sleep(c.gap)
+	if c.served >= c.n {
+		return 0, timeoutErr{}
+	}
+	c.served++
+	return copy(p, replyWithID(9, c.served)), nil
+}
+func (c *timedPC) ReadFrom(p []byte) (int, net.Addr, error) {
+	n, err := c.Read(p)
+	return n, c.RemoteAddr(), err
+}
+func (c *timedPC) Write(p []byte) (int, error)               { return len(p), nil }
+func (c *timedPC) WriteTo(p []byte, _ net.Addr) (int, error) { return len(p), nil }
+func (c *timedPC) Close() error                              { return nil }
+func (c *timedPC) LocalAddr() net.Addr                       { return &net.UDPAddr{IP: net.IPv4(127, 0, 0, 1), Port: 1} }
+func (c *timedPC) RemoteAddr() net.Addr                      { return &net.UDPAddr{IP: net.IPv4(127, 0, 0, 1), Port: 53} }
+func (c *timedPC) SetDeadline(t time.Time) error             { c.deadline = t; return nil }
+func (c *timedPC) SetReadDeadline(t time.Time) error         { c.deadline = t; return nil }
+func (c *timedPC) SetWriteDeadline(time.Time) error          { return nil }
+
 func replyWithID(id uint16, tag int) []byte {
 	m := new(dns.Msg)
 	m.SetQuestion(fmt.Sprintf("r%d.example.", tag), dns.TypeA)
@@ -333,6 +369,20 @@ func runC12(c *Ctx) {
 			}
 			c.OpK("id-unixgram", fmt.Sprintf("xchg.dgram %d %s", qid, strings.Join(args, " ")), got, k > 1, "id-unixgram")
 		}
+	}
+	// 2b. a train of stale replies spaced closer than the timeout: the exchange ends at its deadline, it is not kept alive
+	//     by the replies it skips
+	for _, gapMs := range []int{20, 50} {
+		q := new(dns.Msg)
+		q.SetQuestion("example.org.", dns.TypeA)
+		q.Id = 7
+		tc := &timedPC{gap: time.Duration(gapMs) * time.Millisecond, n: 100}
+		cli := &dns.Client{Timeout: 200 * time.Millisecond}
+		t0 := time.Now()
+		_, _, err := cli.ExchangeWithConn(q, &dns.Conn{Conn: tc})
+		el := time.Since(t0)
+		c.Pred("id-datagram-deadline", "stale-replies-do-not-extend-the-deadline", fmt.Sprintf("timeout=200ms stale reply every %dms", gapMs),
+			err != nil && el < 1200*time.Millisecond, fmt.Sprint(err, " after ", el.Round(10*time.Millisecond)), "a timeout error at about 200ms", true)
 	}
 	// 3. concurrent clients against real servers: each handler sees its own request, each client its own reply
 	c12BufferReuse(c, r)
@@ -507,9 +557,9 @@ func c12IgnoredThenQueries(c *Ctx, r *Rng, kind string) {
 	}
 	defer conn.Close()
 	rounds := c.Scale(60, 2000)
-	bad, total := 0, 0
+	bad, total, silent := 0, 0, 0
 	first := ""
-	for i := 0; i < rounds; i++ {
+	for i := 0; i < rounds && silent < 3; i++ { // a server that has stopped answering is reported, not waited for
 		// a burst of datagrams that never reach a handler
 		for k := 0; k < 1+r.Intn(4); k++ {
 			var d []byte
@@ -566,6 +616,11 @@ func c12IgnoredThenQueries(c *Ctx, r *Rng, kind string) {
 					got = strings.Join(rm.Answer[0].(*dns.TXT).Txt, "")
 				}
 				break
+			}
+			if got == "no reply" {
+				silent++
+			} else {
+				silent = 0
 			}
 			if got != want {
 				bad++
